@@ -60,6 +60,15 @@ def physical(p, dir_fd=None):
     return p
 
 
+def physical_follow(p, dir_fd=None):
+    """for calls that follow a symbolic link in the last component (open without O_NOFOLLOW,
+    utime, chmod, truncate, ...): the entry the call really acts on"""
+    q = physical(p, dir_fd)
+    if q is not None and os.path.islink(q):
+        return os.path.realpath(q)
+    return q
+
+
 def lexical(p):
     p = _fs(p)
     if p is None:
@@ -140,7 +149,8 @@ def _hook(event, args):
         if event == "open":
             path, mode, flags = args
             if isinstance(flags, int) and flags & WRITE_FLAGS and not isinstance(path, int):
-                paths = [physical(path)]
+                nofollow = flags & getattr(os, "O_NOFOLLOW", 0)
+                paths = [physical(path) if nofollow else physical_follow(path)]
         elif event in ("os.mkdir", "os.remove", "os.rmdir", "os.utime", "os.chmod", "os.chown",
                        "os.truncate", "os.setxattr", "os.removexattr", "os.mkfifo", "os.mknod"):
             dir_fd = None
@@ -152,7 +162,10 @@ def _hook(event, args):
                 dir_fd = args[3]
             elif event == "os.chown":
                 dir_fd = args[3]
-            paths = [physical(args[0], dir_fd)]
+            # utime/chmod/chown take follow_symlinks=, which the audit event does not show: taken as
+            # not following here (sound); Path.touch, which does follow, is handled by its wrapper
+            follows = event == "os.truncate"
+            paths = [physical_follow(args[0], dir_fd) if follows else physical(args[0], dir_fd)]
         elif event == "os.rename":
             paths = [physical(args[0], args[2]), physical(args[1], args[3])]
         elif event in ("os.symlink", "os.link"):
@@ -234,7 +247,9 @@ def install():
     _wrap(P, "rmdir", lambda self: ("RmDir", physical(self)))
     _wrap(P, "write_bytes", lambda self, *a, **k: ("Write", physical(self)))
     _wrap(P, "write_text", lambda self, *a, **k: ("Write", physical(self)))
-    _wrap(P, "touch", lambda self, *a, **k: ("Touch", physical(self)))
+    # Path.touch follows a symbolic link: it sets the mtime of, or creates, the link's target
+    _wrap(P, "touch", lambda self, *a, **k: ("Touch", physical_follow(self), None,
+                                             [physical_follow(self), physical(self)]))
     _wrap(P, "rename", lambda self, target: ("Rename", physical(target), physical(self),
                                             [physical(self), physical(target)]))
     _wrap(P, "replace", lambda self, target: ("Rename", physical(target), physical(self),
